@@ -31,38 +31,72 @@ def _fn(ctx: Ctx, name: str) -> Func:
 
 def r17_1(ctx: Ctx) -> None:
     f = _fn(ctx, "read_uint64")
-    tbl = None
-    for n in walk(f.node):
-        if isinstance(n, ast.Assign) and isinstance(n.value, ast.List) and n.value.elts and all(isinstance(e, ast.Tuple) for e in n.value.elts):
-            try:
-                tbl = (n, ctx.ce.eval(n.value, "archiveinfo"))
-            except NotConst:
-                pass
-    ctx.need(tbl is not None, "NUMBER class table not found in read_uint64")
-    node, rows = tbl
-    rows = [tuple(r) for r in rows]
-    ctx.check(rows == spec7z.NUMBER_CLASSES, "R17.1", f, node, "reader class table equals the format's first-byte table",
+    # the scan loop `for v, l in TABLE:` ; TABLE is a local or a module-level constant
+    loops = [n for n in walk(f.node) if isinstance(n, ast.For) and isinstance(n.target, ast.Tuple) and len(n.target.elts) == 2]
+    ctx.need(len(loops) == 1, "class scan loop of read_uint64 not recognised")
+    lp = loops[0]
+    tsrc = lp.iter
+    if isinstance(tsrc, ast.Name) and q.assigned_values(f, tsrc.id):
+        tsrc = q.assigned_values(f, tsrc.id)[0]
+    try:
+        rows = [tuple(r) for r in ctx.ce.eval(tsrc, "archiveinfo")]
+    except (NotConst, TypeError):
+        raise AnalysisError("NUMBER class table of read_uint64 is not a constant")
+    ctx.check(rows == spec7z.NUMBER_CLASSES, "R17.1", f, lp, "reader class table equals the format's first-byte table",
               f"read_uint64's class table {rows} differs from the format table {spec7z.NUMBER_CLASSES}", construct="read_uint64 class table")
+    V, L = lp.target.elts[0].id, lp.target.elts[1].id
+    # roles: first byte B (compared with the row limit), extra-byte count VLEN (assigned the row's count), MASK (halved per skipped row)
+    binds = None
+    for n, b in q.find(lp, f"$B <= {V}"):
+        binds = b
+    ctx.need(binds is not None, "scan comparison `first_byte <= limit` not found")
+    B = norm(binds["B"])
+    vl = [n for n in ast.walk(lp) if isinstance(n, ast.Assign) and norm(n.value) == L and isinstance(n.targets[0], ast.Name)]
+    mk = [n for n in lp.body if isinstance(n, ast.AugAssign) and isinstance(n.op, ast.RShift) and isinstance(n.value, ast.Constant) and n.value.value == 1 and isinstance(n.target, ast.Name)]
+    brk = [n for n in ast.walk(lp) if isinstance(n, ast.Break)]
+    ok = len(vl) == 1 and len(mk) == 1 and len(brk) == 1
+    if ok:
+        VLEN, MASK = vl[0].targets[0].id, mk[0].target.id
+        # the assignment and the break are taken exactly when B <= limit; the mask is halved otherwise
+        fa = [(norm(cd), pol) for cd, pol in q.facts_at(f, vl[0])]
+        fb = [(norm(cd), pol) for cd, pol in q.facts_at(f, brk[0])]
+        ok = (f"{B} <= {V}", True) in fa and (f"{B} <= {V}", True) in fb
+        init = [n for n in walk(f.node) if isinstance(n, ast.Assign) and isinstance(n.targets[0], ast.Name) and n.targets[0].id == MASK and isinstance(n.value, ast.Constant)]
+        ok = ok and len(init) == 1 and init[0].value.value == 0x80
+    ctx.check(ok, "R17.1", f, lp, "class scan: first row with first_byte <= limit wins; mask starts at 0x80 and halves per skipped row",
+              "the class scan of read_uint64 is not 'first row with first_byte <= limit; mask >>= 1 per skipped row, starting from 0x80'", construct="read_uint64 scan loop")
+    # first byte: one byte read from the file
+    bsrc = q.assigned_values(f, B) if B.isidentifier() else []
+    ok = bool(bsrc) and any(isinstance(c, ast.Call) and attr_tail(c) in ("read", "read_byte") for v in bsrc for c in ast.walk(v))
+    ctx.check(ok, "R17.1", f, f.node, "first byte is read from the stream", "the class byte is not read from the stream", construct="read_uint64 first byte")
     # 0xFF escape -> 8 byte little endian
     ok = False
     for n in walk(f.node):
-        if isinstance(n, ast.If) and isinstance(n.test, ast.Compare) and isinstance(n.test.comparators[0], ast.Constant) and n.test.comparators[0].value == 255:
+        if isinstance(n, ast.If) and isinstance(n.test, ast.Compare) and isinstance(n.test.comparators[0], ast.Constant) and n.test.comparators[0].value == 255 and norm(n.test.left) == B:
             ok = any(isinstance(c, ast.Call) and attr_tail(c) == "read_real_uint64" for st in n.body for c in ast.walk(st))
     ctx.check(ok, "R17.1", f, f.node, "0xFF escape reads a real uint64", "the 0xFF first byte is not decoded as an 8-byte value", construct="read_uint64 0xFF")
-    # scan loop: `if b <= v: vlen = l; break` + `mask >>= 1`; initial mask 0x80
-    init_mask = [n for n in walk(f.node) if isinstance(n, ast.Assign) and norm(n.targets[0]) == "mask" and isinstance(n.value, ast.Constant)]
-    ok = bool(init_mask) and init_mask[0].value.value == 0x80
-    loops = [n for n in walk(f.node) if isinstance(n, ast.For)]
-    ok = ok and bool(loops) and any(isinstance(x, ast.Compare) and isinstance(x.ops[0], ast.LtE) for x in ast.walk(loops[0])) and \
-        any(isinstance(x, ast.AugAssign) and isinstance(x.op, ast.RShift) and norm(x.target) == "mask" and isinstance(x.value, ast.Constant) and x.value.value == 1 for x in ast.walk(loops[0])) and \
-        any(isinstance(x, ast.Break) for x in ast.walk(loops[0]))
-    ctx.check(ok, "R17.1", f, loops[0] if loops else f.node, "class scan: first row with b <= v, mask halves per row", "the class scan of read_uint64 is not 'first row with b <= v; mask >>= 1 per skipped row' from 0x80",
-              construct="read_uint64 scan loop")
-    # value composition
-    srcs = " ".join(norm(n) for n in walk(f.node) if isinstance(n, (ast.Return, ast.Assign)))
-    ok = "byteorder='little'" in srcs and "b & mask - 1" in srcs and ("highpart << vlen * 8" in srcs or "<< vlen * 8" in srcs) and "file.read(vlen)" in srcs
-    ctx.check(ok, "R17.1", f, f.node, "value = little-endian extra bytes + (first & (mask-1)) << 8*extra", "read_uint64 does not compose the value as extra bytes (little endian) + high bits << 8*extra",
-              construct="read_uint64 composition")
+    # value composition (locals expanded): one-byte form and general form
+    if len(vl) == 1 and len(mk) == 1:
+        keep = {B, VLEN, MASK}
+        rets = [expand_locals_safe(f, r.value, keep) for r in walk(f.node) if isinstance(r, ast.Return) and r.value is not None]
+        one = any(any(True for _ in q.find(r, f"{B} & ({MASK} - 1)")) and not any(isinstance(x, ast.BinOp) and isinstance(x.op, ast.LShift) for x in ast.walk(r)) for r in rets)
+        gen = False
+        for r in rets:
+            for pat in (f"int.from_bytes($F.read({VLEN}), byteorder='little') + (({B} & ({MASK} - 1)) << ({VLEN} * 8))",
+                        f"int.from_bytes($F.read({VLEN}), 'little') + (({B} & ({MASK} - 1)) << ({VLEN} * 8))",
+                        f"(({B} & ({MASK} - 1)) << ({VLEN} * 8)) + int.from_bytes($F.read({VLEN}), byteorder='little')",
+                        f"int.from_bytes($F.read({VLEN}), byteorder='little') | (({B} & ({MASK} - 1)) << ({VLEN} * 8))"):
+                if any(True for _ in q.find(r, pat)):
+                    gen = True
+        ctx.check(one and gen, "R17.1", f, f.node, "value = little-endian extra bytes + (first & (mask-1)) << 8*extra",
+                  "read_uint64 does not compose the value as extra bytes (little endian) + (first byte & (mask-1)) << 8*extra", construct="read_uint64 composition")
+
+
+def expand_locals_safe(f: Func, e: ast.AST, keep) -> ast.AST:
+    try:
+        return q.expand_locals(f, e, keep)
+    except Exception:
+        return e
 
 
 def _eval_with(ctx: Ctx, e: ast.AST, env: Dict[str, int]):
